@@ -219,7 +219,14 @@ pub async fn run(cfg: RunCfg) -> RunResult {
     loop {
         // collect acks that arrived
         tokio::time::sleep(Duration::from_millis(1)).await;
-        while let Ok((p, Ack::Stepped { done: d, note })) = ack_rx.try_recv() {
+        // acks that arrive in the same quiescence window are processed in party order (their
+        // arrival order depends on the timing of the spill's blocking file I/O)
+        let mut window: Vec<(usize, Ack)> = Vec::new();
+        while let Ok(x) = ack_rx.try_recv() {
+            window.push(x);
+        }
+        window.sort_by_key(|(p, _)| *p);
+        for (p, Ack::Stepped { done: d, note }) in window {
             busy[p] = false;
             if d {
                 done[p] = true;
